@@ -14,6 +14,7 @@ CLAIMS = {
  'C06': ('model_checking', 'Stop rule, current-location report and enabled-set bookkeeping checked per method from arbitrary invariant states against a ghost model; execute() against a shadow run.', 'DESIGN.md 3 C06', 'ghost model of the enabled set; bounded fuel for execute()', 'CBMC one-step checks of VM debugger API against a ghost enabled-set model'),
  'C17': ('model_checking', 'reset() from an arbitrary invariant state equals a freshly constructed machine field by field; HALT step is the identity.', 'DESIGN.md 3 C17', 'Inv, Inv_tab, Inv_en in the pre-state', 'CBMC field-wise equality of VM::reset() result with VM(original program)'),
  'C07': ('translation_validation', 'Per enumerated program shape (canonical layout) the natively compiled program is run by the real VM symbolically in all literal values and compared stop by stop with a reference interpreter that emits line events.', 'DESIGN.md 3 C07', 'shape family enumerated, literals symbolic; compiler executed natively per shape; reference = lib/theolang.py', 'CBMC symbolic execution of the real VM on natively compiled shapes vs reference interpreter (translation validation)'),
+ 'C08': ('model_checking', 'One-step inductive invariant (tables inverse, sites are exactly the POTENTIAL_BREAK instructions, no hidden-file location) over the real GenState::breakpoint / removeTopPotBreak / advanceLine / getMarkPos / emit from arbitrary symbolic table states, with the exact effect of each call; generator runs of any length by induction.', 'DESIGN.md 3 C08', 'syntactic frame check that only these functions touch the tables; token-line provenance checked concretely on native layouts', 'CBMC one-step induction over GenState table functions of gen.cpp from symbolic states'),
  'C14': ('model_checking', 'Bisimulation of the scanner automata (committed flex tables, lexer.l, fixed token spec, regenerated tables) proved as a one-step inductive SMT query over all 256 bytes (inputs of any length), plus bounded symbolic-string checks of the flex matching loop (longest match, line numbers).', 'DESIGN.md 2.3 / 3 C14', 'flex runtime buffer management not modelled; table model validated against the native yylex on every run', 'SMT (z3 + cvc5) inductive bisimulation query over DFAs extracted from lex.yy.c / lexer.l / tokens.spec'),
  'C16': ('translation_validation', 'Per compiled shape the solver finds a routine annotation proving the call graph acyclic (existential SAT query) and the real VM run (symbolic literals) respects the depth bound and halts after exactly the reference number of steps.', 'DESIGN.md 3 C16', 'shape family enumerated; compiler native per shape', 'SAT-found region annotation (CBMC) + symbolic VM run vs reference step count'),
  'C19': ('model_checking', 'Inductive invariant data.size()==sum of live frame sizes and contiguity, preserved by one symbolic step for all opcodes.', 'DESIGN.md 3 C19', 'WF program; bounds in evidence', 'CBMC one-step induction over VM::executeSingle'),
